@@ -112,10 +112,113 @@ class C05Tup(pg.Object):
   td: pg.typing.Dict([(pg.typing.StrKey(), pg.typing.Tuple(pg.typing.Any()))]) = {}
 
 
+class C05HideD(pg.Object):
+  """Dict-valued fields whose own default is NOT the dict they may hold.
+
+  C05HideD / C05HideA / C05HideS: one field per (value-spec kind, kind of
+  default), for writer options that leave things out of the JSON
+  (`hide_default_values`, `hide_frozen`)."""
+  nd: pg.typing.Dict([('w', pg.typing.Int(default=0)),
+                      ('r', pg.typing.Float(default=1.0))]).noneable() = None
+  rd: pg.typing.Dict()                                      # required, free form
+  sd: pg.typing.Dict([(pg.typing.StrKey(), pg.typing.Int())]).noneable() = None
+  # members under a non-const key whose value spec has a default.
+  sk: pg.typing.Dict([(pg.typing.StrKey(), pg.typing.Int(default=0))]) = {}
+  sn: pg.typing.Dict([('c', pg.typing.Int(default=1)),
+                      (pg.typing.StrKey('x.*'), pg.typing.Str().noneable())]) = {}
+  # dict field with a generated default ({p: 1, inner: None, k: {x: 0}}).
+  dd: pg.typing.Dict([
+      ('p', pg.typing.Int(default=1)),
+      ('inner', pg.typing.Dict([('x', pg.typing.Int(default=0))]).noneable()),
+      ('k', pg.typing.Dict([('x', pg.typing.Int(default=0))])),
+  ]) = {}
+
+
+class C05HideA(pg.Object):
+  """Any / Union / list fields."""
+  ra: pg.typing.Any()                                       # required Any
+  an: pg.typing.Any(default=None) = None
+  a1: pg.typing.Any(default=1) = 1
+  un: pg.typing.Union([pg.typing.Dict(), pg.typing.List(pg.typing.Any()),
+                       pg.typing.Int()], default=1) = 1
+  nl: pg.typing.List(pg.typing.Int()).noneable() = None
+  dl: pg.typing.List(pg.typing.Int(), default=[1]) = [1]
+  ld: pg.typing.List(pg.typing.Dict([('x', pg.typing.Int(default=0))])).noneable() = None
+
+
+class C05HideS(pg.Object):
+  """Scalars whose default is not the "empty" value of their type; objects."""
+  i5: pg.typing.Int(default=5) = 5
+  ni: pg.typing.Int(default=5).noneable() = 5
+  s: pg.typing.Str(default='a') = 'a'
+  b: pg.typing.Bool(default=True) = True
+  fl: pg.typing.Float(default=1.5).noneable() = 1.5
+  f0: pg.typing.Float(default=0.0) = 0.0
+  a0: pg.typing.Any(default=0) = 0
+  en: pg.typing.Enum('x', ['x', '', None, 0]) = 'x'
+  ob: pg.typing.Object(C05Leaf).noneable() = None
+  od: pg.typing.Object(C05Pair, default=C05Pair(1)) = C05Pair(1)
+  fz: pg.typing.Str('frozen').freeze() = 'frozen'
+
+
+_HIDE_CLASSES = (C05HideD, C05HideA, C05HideS)
+
+
+def c05_hide(**kw):
+  """The C05Hide* object that has these fields (required fields filled in)."""
+  cls = next(c for c in _HIDE_CLASSES if all(k in c.__annotations__ for k in kw))
+  if cls is C05HideD:
+    kw.setdefault('rd', {'t': 1})
+  elif cls is C05HideA:
+    kw.setdefault('ra', 'r')
+  return cls(**kw)
+
+
+class C05Unserializable:
+  """An opaque value that cannot be converted to JSON (it cannot be pickled)."""
+
+  def __reduce__(self):
+    raise TypeError('C05Unserializable cannot be pickled')
+
+
+class C05BadRepr:
+  """A value that cannot be formatted as text."""
+
+  def __repr__(self):
+    raise RuntimeError('C05BadRepr cannot be formatted')
+
+  __str__ = __repr__
+
+
+# Functions that are serialized with their code and share ONE qualified name.
+C05_MODULE_LAMBDAS = [lambda x: x + 1, lambda x: x * 2, lambda x, y=4: x - y,
+                      lambda x, y=5: x - y]
+
+
+def c05_make_scaler(kind):
+  """Local functions with one qualified name and different code / defaults."""
+  if kind == 'double':
+    def scale(x):
+      return x * 2
+  elif kind == 'shift':
+    def scale(x, offset=100):
+      return x + offset
+  elif kind == 'shift7':
+    def scale(x, offset=7):
+      return x + offset
+  else:
+    def scale(x, y=0):
+      return (x, y)
+  return scale
+
+
 _ENV = dict(
     pg=pg, T=pg.typing, typing=typing, datetime=datetime, math=math, pathlib=pathlib,
     functools=functools,
     C05Leaf=C05Leaf, C05Typed=C05Typed, C05Pair=C05Pair, C05Tup=C05Tup,
+    C05HideD=C05HideD, C05HideA=C05HideA, C05HideS=C05HideS, c05_hide=c05_hide, C05Unserializable=C05Unserializable,
+    C05BadRepr=C05BadRepr, C05_MODULE_LAMBDAS=C05_MODULE_LAMBDAS,
+    c05_make_scaler=c05_make_scaler,
     c05_double=c05_double, c05_make_local=c05_make_local,
     c05_to_list=c05_to_list)
 
@@ -144,6 +247,7 @@ def _header(src):
 # -----------------------------------------------------------------------------
 
 _FUNC_PROBES = (0, 1, 5)
+_FUNC_PROBE_ARGS = ((), (1, 2), (5, 3), ((1, 2),))
 
 
 def _is_fn(x):
@@ -239,10 +343,26 @@ def diff_value(a, b, path='', top=True, check_spec=True):
         getattr(a, '__code__', None) is not None
         and a.__code__.co_flags & 0x10):
       return f'{path}: named function {a!r} -> {b!r} (not the same object)'
+    # a function saved with its code: the loaded one has the same name,
+    # signature, defaults and behaviour.
+    if getattr(b, '__name__', None) != a.__name__:
+      return f'{path}: function {a.__name__} became {getattr(b, "__name__", None)}'
+    ca, cb = a.__code__, getattr(b, '__code__', None)
+    if cb is None or (ca.co_argcount, ca.co_varnames[:ca.co_argcount]) != (
+        cb.co_argcount, cb.co_varnames[:cb.co_argcount]):
+      return f'{path}: function signature changed: {a!r} -> {b!r}'
     for p in _FUNC_PROBES:
       oa, ob = outcome(a, p), outcome(b, p)
       if oa != ob:
         return f'{path}: function behaves differently on {p!r}: {oa!r} -> {ob!r}'
+    for args in _FUNC_PROBE_ARGS:
+      oa, ob = outcome(a, *args), outcome(b, *args)
+      if oa != ob:
+        return f'{path}: function behaves differently on {args!r}: {oa!r} -> {ob!r}'
+    d = diff_value(a.__defaults__, getattr(b, '__defaults__', None),
+                   f'{path}.__defaults__', False, check_spec)
+    if d:
+      return d
     return ''
   # opaque objects, value specs, key paths, MISSING_VALUE ...
   if type(a) is not type(b):
@@ -1035,6 +1155,368 @@ def drv_loader_options(tier, seed):
   _run_positions(rec, 'json-hide_default_values', uni,
                  [('from_json', 'obj', None, hide), ('from_json_str', 'str', None, hide),
                   ('load', 'save-load', None, hide), ('load', 'sym-save-load', None, hide)], tier)
+  return rec.result()
+
+
+# -----------------------------------------------------------------------------
+# Writer options that leave members out of the JSON: nothing may get lost.
+# -----------------------------------------------------------------------------
+
+# field of C05Hide -> [(value class, value source)].  The value classes are the
+# ways in which a value that is NOT the field's default can look like "nothing
+# worth writing": its JSON is empty, it is falsy, it is None, all ITS members
+# are defaults, or it compares equal to the default without being it.
+_EMPTY_JSON = 'non-default-dict-whose-json-is-empty'
+_EMPTY_LIST = 'non-default-empty-list'
+_FALSY = 'non-default-falsy-scalar'
+_NONE = 'none-where-default-is-not-none'
+_PARTLY = 'non-default-container-with-default-members'
+_ORDINARY = 'ordinary-non-default-value'
+_DEFAULT = 'value-equal-to-default'
+_EQ_NOT_SAME = 'value-==-default-but-of-other-type-or-sign'
+_NONCONST = 'member-under-nonconst-key-equal-to-its-spec-default'
+
+HIDE_FIELD_VALUES = {
+    'nd': [(_EMPTY_JSON, '{}'), (_EMPTY_JSON, "{'w': 0, 'r': 1.0}"), (_EMPTY_JSON, "{'r': 1.0}"),
+           (_PARTLY, "{'w': 2}"), (_PARTLY, "{'w': 0, 'r': 0.0}"), (_DEFAULT, 'None')],
+    'rd': [(_EMPTY_JSON, '{}'), (_EMPTY_JSON, 'pg.Dict()'), (_ORDINARY, "{'a': {}}"),
+           (_ORDINARY, "{'a': {'b': {}}, 'c': []}")],
+    'sd': [(_EMPTY_JSON, '{}'), (_ORDINARY, "{'a': 0}"), (_DEFAULT, 'None')],
+    'sk': [(_NONCONST, "{'a': 0}"), (_NONCONST, "{'a': 1, 'b': 0}"), (_ORDINARY, "{'a': 1}"), (_DEFAULT, '{}')],
+    'sn': [(_NONCONST, "{'x1': None}"), (_NONCONST, "{'c': 2, 'x1': 'v', 'x2': None}"),
+           (_PARTLY, "{'x1': ''}"), (_PARTLY, "{'c': 0}"), (_DEFAULT, '{}')],
+    'ra': [(_EMPTY_JSON, '{}'), (_EMPTY_LIST, '[]'), (_FALSY, "''"), (_FALSY, '0'), (_FALSY, 'False'),
+           (_NONE, 'None'), (_ORDINARY, '[{}]'), (_ORDINARY, "{'a': {}}"),
+           (_EMPTY_JSON, "C05Pair({}, right={})"), (_EMPTY_JSON, "C05Leaf({})"),
+           (_EMPTY_JSON, "c05_hide(nd={})")],
+    'an': [(_EMPTY_JSON, '{}'), (_EMPTY_LIST, '[]'), (_FALSY, "''"), (_FALSY, '0'), (_FALSY, 'False'),
+           (_FALSY, '0.0'), (_DEFAULT, 'None'), (_EMPTY_JSON, "c05_hide(rd={}, ra={})")],
+    'a1': [(_EMPTY_JSON, '{}'), (_EMPTY_LIST, '[]'), (_FALSY, '0'), (_NONE, 'None'), (_DEFAULT, '1'),
+           (_EQ_NOT_SAME, 'True'), (_EQ_NOT_SAME, '1.0')],
+    'un': [(_EMPTY_JSON, '{}'), (_EMPTY_LIST, '[]'), (_FALSY, '0'), (_ORDINARY, "{'a': 1}"),
+           (_ORDINARY, '[{}, []]'), (_DEFAULT, '1')],
+    'dd': [(_DEFAULT, '{}'), (_DEFAULT, "{'p': 1}"), (_EMPTY_JSON, "{'inner': {}}"),
+           (_EMPTY_JSON, "{'inner': {'x': 0}}"), (_PARTLY, "{'inner': {'x': 3}}"),
+           (_PARTLY, "{'p': 0}"), (_PARTLY, "{'k': {'x': 1}}"), (_EMPTY_JSON, "{'p': 2, 'inner': {}}")],
+    'nl': [(_EMPTY_LIST, '[]'), (_ORDINARY, '[0]'), (_DEFAULT, 'None')],
+    'dl': [(_EMPTY_LIST, '[]'), (_ORDINARY, '[0]'), (_ORDINARY, '[1, 1]'), (_DEFAULT, '[1]')],
+    'ld': [(_EMPTY_LIST, '[]'), (_PARTLY, '[{}]'), (_PARTLY, "[{'x': 0}, {'x': 1}]"), (_DEFAULT, 'None')],
+    'i5': [(_FALSY, '0'), (_ORDINARY, '-5'), (_DEFAULT, '5')],
+    'ni': [(_FALSY, '0'), (_NONE, 'None'), (_DEFAULT, '5')],
+    's': [(_FALSY, "''"), (_ORDINARY, "'A'"), (_DEFAULT, "'a'")],
+    'b': [(_FALSY, 'False'), (_DEFAULT, 'True')],
+    'fl': [(_FALSY, '0.0'), (_NONE, 'None'), (_ORDINARY, "float('nan')"), (_DEFAULT, '1.5')],
+    'f0': [(_ORDINARY, '1.0'), (_DEFAULT, '0.0'), (_EQ_NOT_SAME, '-0.0')],
+    'a0': [(_ORDINARY, "''"), (_NONE, 'None'), (_DEFAULT, '0'), (_EQ_NOT_SAME, 'False'),
+           (_EQ_NOT_SAME, '0.0'), (_EQ_NOT_SAME, '-0.0')],
+    'en': [(_FALSY, "''"), (_NONE, 'None'), (_FALSY, '0'), (_DEFAULT, "'x'")],
+    'ob': [(_ORDINARY, 'C05Leaf(None)'), (_EMPTY_JSON, 'C05Leaf({})'), (_DEFAULT, 'None')],
+    'od': [(_ORDINARY, 'C05Pair(None)'), (_EMPTY_JSON, 'C05Pair(1, right={})'),
+           (_PARTLY, 'C05Pair(1, right=0)'), (_DEFAULT, 'C05Pair(1)')],
+}
+
+_CLASS_RANK = [_EQ_NOT_SAME, _NONCONST, _EMPTY_JSON, _EMPTY_LIST, _NONE, _FALSY, _PARTLY, _ORDINARY, _DEFAULT]
+
+# writer option sets (every one must be lossless).
+WRITER_OPTIONS = [
+    dict(hide_default_values='True'),
+    dict(hide_default_values='True', hide_frozen='False'),
+    dict(hide_default_values='True', use_inferred='True'),
+    dict(hide_frozen='True', hide_default_values='False'),
+    dict(use_inferred='True'),
+]
+
+# where the schema-backed object sits ({o}); the same members as a schema-
+# backed pg.Dict (no class) are built by `_hide_as_dict`.
+HIDE_HOLDERS = [
+    ('root', '{o}'),
+    ('in-dict', "{{'h': {o}}}"),
+    ('in-list', '[{o}, 1]'),
+    ('in-tuple', '(0, {o})'),
+    ('in-any-field', 'C05Leaf({o})'),
+    ('in-typed-field-of-same-class', 'c05_hide(an={o})'),
+    ('in-list-in-dict-field', "C05Pair([{{'z': {o}}}])"),
+]
+
+_HIDE_ENTRIES = ['obj', 'str', 'save-load', 'sym-save-load', 'str-indent']
+
+_HIDE_DICT_SPEC = (
+    "pg.typing.Dict([('nd', pg.typing.Dict([('w', pg.typing.Int(default=0))]).noneable()), "
+    "('rd', pg.typing.Dict()), ('an', pg.typing.Any(default=None)), "
+    "('un', pg.typing.Union([pg.typing.Dict(), pg.typing.Int()], default=1)), "
+    "('nl', pg.typing.List(pg.typing.Int()).noneable()), ('i5', pg.typing.Int(default=5)), "
+    "('a0', pg.typing.Any(default=0)), "
+    "(pg.typing.StrKey('x.*'), pg.typing.Dict([('y', pg.typing.Int(default=0))]).noneable())])")
+
+HIDE_DICT_VALUES = [
+    (_EMPTY_JSON, "nd={}, rd={'t': 1}"), (_EMPTY_JSON, "nd={'w': 0}, rd={'t': 1}"),
+    (_EMPTY_JSON, 'rd={}'), (_EMPTY_JSON, "rd={'t': 1}, an={}"), (_EMPTY_JSON, "rd={'t': 1}, un={}"),
+    (_EMPTY_JSON, "rd={'t': 1}, x1={}"), (_EMPTY_JSON, "rd={'t': 1}, x1={'y': 0}"),
+    (_NONCONST, "rd={'t': 1}, x1={'y': 1}, x2=None"),
+    (_EMPTY_LIST, "rd={'t': 1}, nl=[]"), (_EMPTY_LIST, "rd={'t': 1}, an=[]"),
+    (_FALSY, "rd={'t': 1}, i5=0"), (_FALSY, "rd={'t': 1}, an=0"), (_NONE, "rd={'t': 1}, a0=None"),
+    (_PARTLY, "rd={'t': 1}, nd={'w': 3}, x1={'y': 1}"), (_DEFAULT, "rd={'t': 1}"),
+    (_EQ_NOT_SAME, "rd={'t': 1}, a0=False"),
+]
+
+
+def hide_universe(tier, seed):
+  """-> [(value class, src of a C05Hide* object, number of fields set)]."""
+  out = []
+  for k, vals in HIDE_FIELD_VALUES.items():
+    for cls, val in vals:
+      out.append((cls, f'c05_hide({k}={val})', 1))
+  r = rng(seed, 'c05-hide')
+  for i in range(120 if tier == 'thorough' else 18):
+    keys = [k for k in HIDE_FIELD_VALUES if k in _HIDE_CLASSES[i % 3].__annotations__]
+    ks = r.sample(keys, r.randint(2, min(5, len(keys))))
+    # (classes that have their own findings stay out of the combinations.)
+    picks = [(k,) + r.choice([x for x in HIDE_FIELD_VALUES[k] if x[0] not in (_EQ_NOT_SAME, _NONCONST)])
+             for k in ks]
+    cls = min((c for _, c, _ in picks), key=_CLASS_RANK.index)
+    out.append((cls, 'c05_hide(' + ', '.join(f'{k}={v}' for k, _, v in picks) + ')', len(ks)))
+  return out
+
+
+def _opt_tag(kw):
+  return '+'.join(f'{k}={v}' for k, v in sorted(kw.items()))
+
+
+def drv_writer_options(tier, seed):
+  rec = Recorder(
+      'C05', 'writer options that leave members out of the JSON (hide_default_values, hide_frozen, '
+             'use_inferred) lose nothing',
+      scope='C05Hide: 22 schema-backed fields (noneable / required / free-form / StrKey dict fields, Any, '
+            'Union, dict with generated default and nested dict members, lists, list of dicts, scalars with '
+            'non-falsy defaults, Enum, Object with/without default, frozen) x per field 2-12 values of 8 '
+            'classes (non-default value whose JSON is {}, empty list, falsy scalar, None, container whose '
+            'members are partly defaults, ordinary, the default itself, == default but other type/sign) + '
+            'seeded combinations of 2-6 fields (quick 16 / thorough 120); x 5 writer option sets x entry '
+            'points to_json / to_json_str (+indent) / pg.save+pg.load / v.save+cls.load; x 7 holders '
+            '(quick: root for all, other holders for the single-field values in rotation); the same for a '
+            'schema-backed pg.Dict (value_spec=) with const and StrKey members; geno specs, hyper values '
+            'and C05Typed objects written with hide_default_values')
+  uni = hide_universe(tier, seed)
+  for n, (cls, osrc, nfields) in enumerate(uni):
+    for hi, (hn, hf) in enumerate(HIDE_HOLDERS):
+      # quick: every value at the root; single-field values below 2 of the 6
+      # other holders (rotating).
+      if hn != 'root' and tier != 'thorough' and not (nfields == 1 and (n + hi) % 3 == 0):
+        continue
+      src = hf.format(o=osrc)
+      try:
+        v = ev(src)
+      except Exception:  # not constructible: not an input.  pylint: disable=broad-except
+        continue
+      symbolic = isinstance(v, pg.Symbolic)
+      first = True
+      for oi, kw in enumerate(WRITER_OPTIONS):
+        hides = kw.get('hide_default_values') == 'True'
+        if tier == 'thorough' or (hn == 'root' and oi == 0):
+          entries = _HIDE_ENTRIES
+        elif hn == 'root':
+          entries = [_HIDE_ENTRIES[(n + oi) % 2]]
+        else:
+          entries = [_HIDE_ENTRIES[(n + oi) % 2]] if oi < 2 else []
+        for form in entries:
+          if form == 'sym-save-load' and not symbolic:
+            continue
+          if form == 'str-indent' and not hides:
+            continue
+          # an option that hides nothing relevant is one class whatever the value.
+          cid = (f'json-writer-option/hide_default_values/{cls}' if hides
+                 else f'json-writer-option/{_opt_tag(kw)}')
+          # (the value is built once; that writing leaves it alone is checked
+          # on the first entry point.)
+          record_json(rec, 'writer-option', src, form, cid=cid, kw=kw, _v=v, check_original=first)
+          first = False
+  # a stand-alone typed dict below an untyped field: its own spec decides what
+  # is hidden, and nothing restores that spec when loading.
+  for src in ["C05Leaf(pg.Dict(x=0, value_spec=pg.typing.Dict([('x', pg.typing.Int(default=0))])))",
+              "[pg.Dict(y=1, value_spec=pg.typing.Dict([('x', pg.typing.Int(default=0)), ('y', pg.typing.Int())]))]"]:
+    for form in ('obj', 'str'):
+      v = ev(src)
+      o = outcome(lambda: pg.from_json(pg.to_json(v, hide_default_values=True)) if form == 'obj'
+                  else pg.from_json_str(pg.to_json_str(v, hide_default_values=True)))
+      ok = o[0] == 'ok' and diff_value(v, o[1], check_spec=False) == ''
+      rec.case('json-writer-option/hide_default_values/stand-alone-typed-dict-below-untyped-field',
+               (src, form), ok, f'{v!r} -> {o[1]!r}',
+               f'{_header(src)}v = {src}\nr = pg.from_json(pg.to_json(v, hide_default_values=True))\n'
+               'assert pg.eq(v, r), (v, r)\n')
+  # the same members in a schema-backed pg.Dict (the loader is given the spec).
+  for cls, args in HIDE_DICT_VALUES:
+    src = f'pg.Dict({args}, value_spec={_HIDE_DICT_SPEC})'
+    for kw in WRITER_OPTIONS[:2]:
+      for form in ('obj', 'str', 'save-load'):
+        record_json(rec, 'writer-option', src, form, kw=kw, lkw=dict(value_spec=_HIDE_DICT_SPEC),
+                    cid=f'json-writer-option/hide_default_values/{cls}',
+                    check_original=False)
+  # library classes with many defaulted members.
+  others = [(s, 'geno') for s in GENO_POINTS[::2] + GENO_FROM_HYPER[:3]]
+  others += [(s, 'hyper') for s in HYPER_VALUES]
+  others += [(s, 'typed') for s in typed_universe('quick', seed)[::(1 if tier == 'thorough' else 4)]]
+  for src, fam in others:
+    if not constructible(src) or delicate_class(ev(src), 'str'):
+      continue
+    for form in ('obj', 'str'):
+      record_json(rec, 'writer-option', src, form, kw=WRITER_OPTIONS[0], check_original=False,
+                  cid=f'json-writer-option/hide_default_values/{fam}')
+  return rec.result()
+
+
+# -----------------------------------------------------------------------------
+# Values that are written under one NAME but differ in content: functions that
+# are serialized with their code (all lambdas of a module are '<module>.<lambda>',
+# local functions of different scopes / branches share a qualified name) and
+# generic types of one origin.  Neither a second one inside the same value nor
+# one loaded later in the same process may come back as the first.
+# -----------------------------------------------------------------------------
+
+SAME_NAME_GROUPS = [
+    ('code-functions', 'lambdas-built-by-eval',
+     ['(lambda x: x - 3)', '(lambda x: x * 10)', '(lambda x, y=2: x * 10 + y)',
+      '(lambda x, y=3: x * 10 + y)', '(lambda: 7)', '(lambda x, y: (x, y))']),
+    ('code-functions', 'lambdas-of-a-module',
+     [f'C05_MODULE_LAMBDAS[{i}]' for i in range(len(C05_MODULE_LAMBDAS))]),
+    ('code-functions', 'local-functions-of-one-factory',
+     [f'c05_make_scaler({k!r})' for k in ('double', 'shift', 'shift7', 'pair')]),
+    ('generic-types', 'subscripted-generics-of-one-origin',
+     ['typing.List[int]', 'typing.List[str]', 'list[int]', 'list[str]', 'list[list[int]]',
+      'typing.Dict[str, int]', 'typing.Dict[int, str]', 'typing.Optional[int]',
+      'typing.Optional[str]', 'dict[str, list[int]]', 'dict[str, list[str]]',
+      'typing.Callable[[int], str]', 'typing.Callable[[str], int]']),
+]
+
+SAME_NAME_HOLDERS = [
+    ('list', '[{f}, {g}]'),
+    ('tuple', '({f}, 0, {g})'),
+    ('dict', "{{'a': {f}, 'b': {g}}}"),
+    ('object-any-fields', 'C05Pair({f}, right={g})'),
+    ('nested', 'pg.Dict(x=[{f}], y=C05Leaf(({g},)))'),
+    ('repeated', '[{f}, {g}, {f}]'),
+    ('typed-fields', 'C05Typed(i=1, c={f}, a={g})'),     # functions only (c: Callable)
+    ('typed-fields', 'C05Typed(i=1, ty={f}, a={g})'),    # types only (ty: Type)
+]
+
+# sequential entry points: (name, write statement(s) for item k, read statement for item k)
+_SEQ_ENTRIES = ['from_json', 'from_json_str', 'save-load-on-distinct-paths', 'records-of-one-jsonl-file']
+
+
+def _name_of(src):
+  try:
+    j = pg.to_json(ev(src))
+    return (j.get('name'), 'code' in j)
+  except Exception:  # pylint: disable=broad-except
+    return None
+
+
+def drv_same_name_symbols(tier, seed):
+  rec = Recorder(
+      'C05', 'functions serialized with their code / generic types that share one qualified name: '
+             'each comes back as itself, inside one value and across successive loads in one process',
+      scope='groups: 6 lambdas built by eval, 4 lambdas of this module, 4 local functions of one factory '
+            '(different code, same code with different defaults, different arity), 13 subscripted generics '
+            '(typing.List/Dict/Optional/Callable, list, dict with different args); all ordered pairs of a '
+            'group x 7 holders (list, tuple, dict, object Any fields, nested, repeated, typed fields) x forms '
+            'obj/str (quick: 3 holders per pair in rotation); value specs with two transform / default '
+            'functions; successive loads: ALL sequences of length <= 3 (with repetition) over each group '
+            '(quick: all of length <= 2 + 40 seeded of length 3..4) through pg.from_json, pg.from_json_str, '
+            'pg.save to distinct /mem paths then pg.load in sequence order, records of one pg.open_jsonl '
+            'file; oracle: name, signature, defaults and behaviour on 7 probe argument lists (functions), '
+            '== and exact type (types)')
+  r = rng(seed, 'c05-same-name')
+  run_id = next(_RUN_IDS)
+  for kind, gname, srcs in SAME_NAME_GROUPS:
+    srcs = [s for s in srcs if constructible(s)]
+    if kind == 'code-functions':
+      # scope check: the members really are written under one name, with code.
+      names = {_name_of(s) for s in srcs}
+      rec.case(f'harness/same-name-group-{gname}', tuple(srcs),
+               len(names) == 1 and list(names)[0] and list(names)[0][1],
+               f'group is not written under one name with code: {names}', '')
+    # (a) two of them inside one value.
+    pairs = [(f, g) for f in srcs for g in srcs if f != g]
+    for n, (f, g) in enumerate(pairs):
+      for hi, (hn, hf) in enumerate(SAME_NAME_HOLDERS):
+        if tier != 'thorough' and (n + hi) % 3:
+          continue
+        src = hf.format(f=f, g=g)
+        if not constructible(src):
+          continue           # e.g. a type in a Callable field.
+        for form in ('obj', 'str'):
+          if tier != 'thorough' and (n + hi // 3) % 2 != (form == 'str'):
+            continue
+          record_json(rec, 'same-name', src, form, cid=f'json-same-name/{kind}-in-one-value',
+                      check_original=False)
+    # (b) loaded one after the other.
+    seqs = [q for k in (1, 2) for q in itertools.product(range(len(srcs)), repeat=k)]
+    if tier == 'thorough':
+      seqs += list(itertools.product(range(len(srcs)), repeat=3))
+    else:
+      seqs += [tuple(r.randrange(len(srcs)) for _ in range(r.randint(3, 4))) for _ in range(40)]
+    originals = [ev(s) for s in srcs]
+    jobj = [pg.to_json(v) for v in originals]
+    jstr = [pg.to_json_str(v) for v in originals]
+    for qi, q in enumerate(seqs):
+      for entry in _SEQ_ENTRIES:
+        if tier != 'thorough' and len(q) > 1 and entry.startswith(('save', 'records')) and qi % 4:
+          continue
+        head = f'{_header("C05")}from {_MOD} import assert_same\nvs = [{", ".join(srcs[i] for i in q)}]\n'
+        try:
+          if entry == 'from_json':
+            got = [pg.from_json(copy.deepcopy(jobj[i])) for i in q]
+            wit = head + 'rs = [pg.from_json(pg.to_json(v)) for v in vs]\n'
+          elif entry == 'from_json_str':
+            got = [pg.from_json_str(jstr[i]) for i in q]
+            wit = head + 'rs = [pg.from_json_str(pg.to_json_str(v)) for v in vs]\n'
+          elif entry.startswith('save'):
+            base = f'/mem/c05same/r{run_id}/{gname}/{qi}'
+            for k, i in enumerate(q):
+              pg.save(pg.Dict(fn=originals[i]), f'{base}/{k}.json')
+            got = [pg.load(f'{base}/{k}.json').fn for k in range(len(q))]
+            wit = head + (f"for k, v in enumerate(vs):\n  pg.save(pg.Dict(fn=v), '/mem/c05w/%d.json' % k)\n"
+                          "rs = [pg.load('/mem/c05w/%d.json' % k).fn for k in range(len(vs))]\n")
+          else:
+            p = f'/mem/c05same/r{run_id}/{gname}/{qi}.jsonl'
+            with pg.open_jsonl(p, 'w') as fh:
+              for i in q:
+                fh.add(originals[i])
+            with pg.open_jsonl(p, 'r') as fh:
+              got = list(iter(fh))
+            wit = head + ("with pg.open_jsonl('/mem/c05w/s.jsonl', 'w') as f:\n  for v in vs:\n    f.add(v)\n"
+                          "with pg.open_jsonl('/mem/c05w/s.jsonl', 'r') as f:\n  rs = list(iter(f))\n")
+          d = ''
+          if len(got) != len(q):
+            d = f'{len(got)} values loaded, want {len(q)}'
+          for k, i in enumerate(q):
+            d = d or diff_value(originals[i], got[k], f'[load #{k}: {srcs[i]}]')
+        except Exception as e:  # pylint: disable=broad-except
+          d = f'{type(e).__name__}: {e}'
+        rec.case(f'json-same-name/{kind}-loaded-one-after-the-other', (gname, q, entry), not d,
+                 f'[{entry}] {d}', wit + 'for v, r in zip(vs, rs):\n  assert_same(v, r)\n')
+  # (c) value specs that carry two such functions (transform= / default=).
+  fs = SAME_NAME_GROUPS[0][2][:3] + SAME_NAME_GROUPS[2][2][:2]
+  for f in fs:
+    for g in fs:
+      if f == g or (f.startswith('(') != g.startswith('(')):
+        continue
+      for tpl, probe in [
+          ("T.Dict([('a', T.Any(transform={f})), ('b', T.Any(transform={g}))])",
+           "[x.apply({'a': 5, 'b': 5}) for x in (v, r)]"),
+          ("T.Tuple([T.Int(transform={f}), T.Int(transform={g})])", '[x.apply((5, 5)) for x in (v, r)]'),
+          ("T.Dict([('a', T.Callable(default={f})), ('b', T.Callable(default={g}))])",
+           "[[x.apply({})[k](5) for k in 'ab'] for x in (v, r)]"),
+      ]:
+        src = tpl.format(f=f, g=g)
+        for form in ('obj', 'str'):
+          ok, back = record_json(rec, 'same-name', src, form, check_original=False,
+                                 cid='json-same-name/code-functions-in-one-value')
+          if ok:
+            o = outcome(eval, probe, dict(v=ev(src), r=back))   # pylint: disable=eval-used
+            rec.case('json-same-name/code-functions-in-one-value', (src, form, 'behaviour'),
+                     o[0] == 'ok' and diff_value(o[1][0], o[1][1]) == '', f'{probe}: {o}',
+                     f'{_header(src)}v = {src}\nr = pg.from_json_str(pg.to_json_str(v))\n'
+                     f'a, b = {probe}\nassert a == b, (a, b)\n')
   return rec.result()
 
 
@@ -2400,7 +2882,9 @@ def drv_pickle_deepcopy(tier, seed):
   return rec.result()
 
 
-DRIVERS = [drv_json_values, drv_typed_objects, drv_loader_options, drv_specs, drv_geno_dna,
+DRIVERS = [drv_json_values, drv_typed_objects, drv_loader_options, drv_writer_options,
+           drv_same_name_symbols, drv_specs,
+           drv_geno_dna,
            drv_file_systems, drv_sequences, drv_pickle_deepcopy]
 
 
